@@ -322,6 +322,11 @@ def c13(tr, sem=None):
         for o in e.get('obs', []):
             if o[0] in ('body', 'emit', 'save', 'spawn', 'default'):
                 v.append(f'{o[0]} {o[1:3]} happened after chart.run had ended')
+    # … also not in a callback of another event manager that was started before the end and is still running
+    n_end = tr.get('obs2_at_end')
+    if n_end is not None and len(tr.get('obs2') or []) > n_end:
+        late = tr['obs2'][n_end]
+        v.append(f'the second event manager was told {late[0]} (node {late[2]}) after chart.run had ended')
     r = tr['results'][0] if tr['results'] else None
     if cancel_requested(tr) and r is not None and r[0] == 'raised':
         v.append(f'cancelling the run surfaced {L.exc_str(r[1])} instead of CancelledError')
